@@ -7,7 +7,7 @@ import os, subprocess, sys, glob, shutil, time, json
 
 ROOT = os.path.dirname(os.path.abspath(__file__))
 SCRATCH = os.environ.get("VERIF_SCRATCH", "/var/tmp/verif-scratch")
-WT = os.path.join(SCRATCH, "selftest-wt")
+WT = os.path.join(SCRATCH, "selftest-wt-%d" % os.getpid())
 
 def sh(cmd, **kw):
     return subprocess.run(cmd, shell=True, stdout=subprocess.PIPE, stderr=subprocess.STDOUT, text=True, **kw)
